@@ -84,6 +84,8 @@ def body_dask(case, ctx):
         r.label("all_one_cell_chunks")
     if cross:
         r.label("target_reaches_across_chunk_edge")
+    if 0 in [float(t) for t in tv]:
+        r.label("zero_listed_as_target_value")
     if case.get("elongated"):
         r.label("elongated_raster_long_axis_halo_exceeds_short_axis")
     if case.get("edge"):
@@ -151,6 +153,14 @@ def dask_cases(draw, max_side):
         flat[draw(st.integers(0, h * w - 1))] = draw(st.sampled_from(vals))
     present = [v for v in dict.fromkeys(flat) if not isinstance(v, str) and v != 0]
     tv = [] if (not present or draw(st.integers(0, 2)) > 0) else present[:draw(st.integers(1, 2))]
+    if draw(st.integers(0, 3)) == 0:
+        # inverted raster: non-zero background, a few zero cells, and 0 listed as a target value (a real class 0): the halo fill value
+        # and anything else that treats 0 as "background" become visible
+        bgv = draw(st.sampled_from(vals))
+        flat = [(0 if (not isinstance(v, str) and v != 0) else (v if isinstance(v, str) else bgv)) for v in flat]
+        if 0 not in flat:
+            flat[draw(st.integers(0, h * w - 1))] = 0
+        tv = [0] if draw(st.booleans()) else [0, 77.5]
     if metric == "GREAT_CIRCLE":
         unit = P.haversine(0, min(sx, 1.0), 0, 0)
         md = draw(st.sampled_from([None, 4.1e7, unit * 0.2]))   # single block, >= half circumference, or far below one cell
